@@ -86,7 +86,7 @@ def run_peak(tools, path, args, stack, max_steps=400000000, timeout=120):
     cmd.append(path)
     try:
         p = subprocess.run(cmd, stdout=subprocess.PIPE, stderr=subprocess.PIPE, stdin=subprocess.DEVNULL,
-                           timeout=timeout, env=vmcheck.ENV)
+                           timeout=timeout, env=getattr(tools, "env", None) or vmcheck.ENV)
     except subprocess.TimeoutExpired:
         return {"status": "timeout", "cmd": " ".join(cmd)}
     so, se = p.stdout.decode(errors="replace"), p.stderr.decode(errors="replace")
@@ -157,6 +157,8 @@ def hash_str(s):
 def run(ctx):
     ctx.proofs()
     tools = vmcheck.VmTools("plain")
+    # the generated modules (layouts `use` / `module`) live beside the generated programs
+    tools.env = dict(vmcheck.ENV, NEVER_PATH=tools.tmp + ":" + vmcheck.ENV["NEVER_PATH"])
     ok, log = common.ocaml_build("tailrec")
     if not ok:
         raise common.BuildError("ocaml build (tailrec) failed:\n" + log[-3000:])
@@ -212,9 +214,24 @@ def run(ctx):
         p.idx = i
         p.path = os.path.join(tools.tmp, "c13_%04d.nev" % i)
         p.src = p.text()
+        # placement of the function under test in the compilation units (front/tailrec.c never_tailrec walks
+        # the main file, its `use`d modules and their imports): plain file / a file with a `use` clause /
+        # inside a module that itself imports a module
+        p.layout = ("plain", "use", "module")[i % 3]
+        if p.layout == "use":
+            p.src = "use ctaux\n\n" + p.src
+        elif p.layout == "module":
+            mod = "ctm" + "".join(chr(ord("a") + int(c)) for c in "%04d" % i)
+            body = p.src.replace("func main(n : int, w : int) -> int", "func entry(n : int, w : int) -> int")
+            with open(os.path.join(tools.tmp, mod + ".nev"), "w") as f:
+                f.write("module %s {\nuse ctaux\n\n%s\n}\n" % (mod, body))
+            p.module_src = body
+            p.src = "use %s\n\nfunc main(n : int, w : int) -> int\n{\n    %s.entry(n, w)\n}\n" % (mod, mod)
         with open(p.path, "w") as f:
             f.write(p.src)
         p.shape_list = p.shapes()
+    with open(os.path.join(tools.tmp, "ctaux.nev"), "w") as f:
+        f.write("module ctaux {\n    func step(x : int) -> int { x + 1 }\n}\n")
 
     # model: one batch through the extracted tail_calls
     lines = []
@@ -291,7 +308,9 @@ def run(ctx):
             dist["form:" + w] += 1
         for c in p.cx.calls.values():
             dist["callsite:%s:%s" % (p.kind if p.kind != "tail" else "tail", c["form"])] += 1
-        replay = {"program": p.src, "shape": p.shape_id, "stack": STACK,
+        replay = {"program": p.src, "layout": p.layout, "module_files": (
+                      {"ctaux.nev": "module ctaux {\n    func step(x : int) -> int { x + 1 }\n}\n"} if p.layout != "plain" else {}),
+                  "module_body": getattr(p, "module_src", None), "shape": p.shape_id, "stack": STACK,
                   "how": "bin/repobuild plain; bcdump --peak --nocode --stack S --arg N --arg 0 FILE (w=1: loop version)"}
         if res["compile"] != 0:
             ctx.correspondence_broken("generator: program does not compile (%s)" % p.shape_id,
